@@ -458,14 +458,15 @@ theorem ordered_odd_fails (c : Cfg) (hm : isPayloadForbid c.method c.allowGet = 
 /-- **marshal_choice** — a value to marshal (and nothing that takes precedence: no form data,
 no multipart): without any Content-Type preset the JSON marshaller is used and the JSON
 content type is set; with a preset (request level first, else client level) containing
-"xml" the XML marshaller is used, otherwise the JSON marshaller; the preset type is kept. -/
+"xml" in any letter case (`+xml` suffixes and parameters included) the XML marshaller is used,
+otherwise the JSON marshaller; the preset type is kept. -/
 theorem marshal_choice (c : Cfg) (json xml : Option Bytes)
     (hm : isPayloadForbid c.method c.allowGet = false) (hmp : c.multipart = false)
     (ho : c.ordered = []) (hr : c.reqForm = []) (hc : c.clientForm = [])
     (hv : c.marshal = some (json, xml)) :
     dispatch c =
       if (effCT c).isEmpty then json.map (fun j => ⟨.marshalJson, some j, jsonCT⟩)
-      else if isInfix xmlWord (effCT c) then xml.map (fun x => ⟨.marshalXml, some x, effCT c⟩)
+      else if isXMLType (effCT c) then xml.map (fun x => ⟨.marshalXml, some x, effCT c⟩)
       else json.map (fun j => ⟨.marshalJson, some j, effCT c⟩) := by
   simp only [dispatch, hm, hmp, ho, hr, hc, hv, pairUp, mergeForm, addAll, List.foldl_nil,
     List.isEmpty_nil, Bool.false_eq_true, ↓reduceIte, Bool.not_true, Bool.or_self]
